@@ -183,9 +183,11 @@ type c12Item struct {
 }
 
 var c12Battery = []c12Item{
-	// the first three items run first after every aborted evaluation, in this order: each looks at state that any
+	// the first five items run first after every aborted evaluation, in this order: each looks at state that any
 	// later item would repair as a side effect (a recover() that consumes the panic, RunExpr resetting the call stack)
 	{"direct-call-depth", "direct", "bBrk", "7 stops=[B d1 c0]"},
+	{"toplevel-defer-recover", "eval", `defer func() { bvStr = bs("r", recover()) }()`, ""},
+	{"toplevel-defer-recovered-value", "eval", `bvStr`, "r<nil>"},
 	{"recover-no-panic", "eval", `bRecoverNoPanic()`, "<nil>"},
 	{"toplevel-recover", "eval", `recover()`, "<nil>"},
 	// the remaining items run in an order rotated by the injection point k (the reference uses the same order)
